@@ -217,6 +217,8 @@ type Stub struct {
 	// Between, if set, runs between the two deliveries of a duplicated request (the harness drains
 	// the first delivery's background work there).
 	Between func()
+	// Down, if set and true after a call, turns the outcome into a transport error (the server died).
+	Down func() bool
 	// LastReq is a copy of the last push-pull request sent through this stub.
 	LastReq *model.PushPullMessage
 }
@@ -240,6 +242,7 @@ func (s *Stub) takeFault() RPCFault {
 	return f
 }
 
+var errServerDied = fmt.Errorf("rpc error: code = Unavailable desc = harness: the server died")
 var errDropped = fmt.Errorf("rpc error: code = Unavailable desc = harness: response dropped")
 
 func (s *Stub) ProcessPushPull(ctx context.Context, in *model.PushPullMessage, _ ...grpc.CallOption) (*model.PushPullMessage, error) {
@@ -264,6 +267,9 @@ func (s *Stub) ProcessPushPull(ctx context.Context, in *model.PushPullMessage, _
 	if fault == RPCDropResponse {
 		return nil, errDropped
 	}
+	if s.Down != nil && s.Down() {
+		return nil, errServerDied
+	}
 	if err != nil {
 		return nil, err
 	}
@@ -276,6 +282,9 @@ func (s *Stub) ProcessClient(ctx context.Context, in *model.ClientMessage, _ ...
 	defer cancel()
 	out, err := s.Svc().ProcessClient(cctx, cloneMsg(in, &model.ClientMessage{}))
 	s.Sched.Gate("rpc.response:client:" + s.Name)
+	if s.Down != nil && s.Down() {
+		return nil, errServerDied
+	}
 	if err != nil {
 		return nil, err
 	}
